@@ -1,5 +1,5 @@
-import Chewing.Proofs.CliCompile
-import Chewing.Props.C13
+import Chewing.Proofs.CliSource
+import Chewing.Proofs.CliSqlLookup
 /-!
 # C20 — The dictionary compiler and dumper are inverse on well-formed sources
 
@@ -29,7 +29,7 @@ a concrete witness and a partial theorem that excludes exactly the class):
 * F18 `F18-tone1` / `empty-phrase`: accepted lines whose dump does not read back —
   `roundtrip_full_refuted`, `dump_compile_roundtrip` (hypothesis `WellFormedRecord`);
 * F34 `F34-sqlite-order`: the SQLite file compiled from the dump orders the candidates of a
-  one-syllable key differently — `recompiled_lookup_sqlite_refuted`.
+  one-syllable key differently — `recompiled_lookup_sqlite_refuted`, `recompiled_lookup_partial`.
 -/
 namespace Chewing.C20
 open Chewing Chewing.Cli Gen
@@ -55,11 +55,36 @@ theorem wellFormedRecord_iff {r : Rec} : WellFormedRecord r ↔
 theorem composable_sylOK {c : Nat} (h : C13.Composable c) (hne : spell c ≠ []) : sylOK c = true := by
   simp [sylOK, C13.parse_spell h, hne]
 
-/-- every syllable the parser produces from a field without the first-tone mark qualifies (C13) -/
-theorem parsed_sylOK {s : List Nat} {v : Nat} (hp : Chewing.parse s = .ok v) (hne : s ≠ [])
-    (hno : ∀ c ∈ s, c ≠ 713) : sylOK v = true := by
-  obtain ⟨hc, hs⟩ := C13.spell_parse hp hno
-  exact composable_sylOK hc (hs ▸ hne)
+/-- **parse_source_line** — the same for a source line in free style: optional quotes around the phrase and
+    around the frequency, runs of the delimiter between the fields, any run of commas / whitespace between
+    the syllables, an optional trailing `# comment` of arbitrary text; `' '` and `','` both qualify as `d` -/
+theorem parse_source_line (d : Nat) (keep qp qf : Bool) (g1 g2 gs : Text) (cm : Option (Text × Text)) (r : Rec)
+    (h : WellFormedRecord r) (hd : sylSep d = true)
+    (hg1 : g1 ≠ [] ∧ ∀ c ∈ g1, c = d) (hg2 : g2 ≠ [] ∧ ∀ c ∈ g2, c = d)
+    (hgs : gs ≠ [] ∧ AllSep sylSep gs) (hcm : ∀ gc c, cm = some (gc, c) → gc ≠ [] ∧ AllSep sylSep gc) :
+    parseLine d keep (renderLine qp qf g1 g2 gs cm r) = .ok (zeroFreq keep r) :=
+  parse_renderLine d keep qp qf g1 g2 gs cm r h hd hg1 hg2 hgs hcm
+
+/-- token-level reading (covers every other style, e.g. one pair of quotes around all syllables and the
+    comment): if the first two delimiter fields strip to the phrase and a `u32` and the remaining
+    syllable fields parse to `syls`, the line parses to that record -/
+theorem parse_tokens {d : Nat} {keep : Bool} {line fp ff p : Text} {rest1 : List Text} {f : Nat}
+    {syls : List Nat} (h1 : tokens (· == d) line = fp :: ff :: rest1) (hp : trimQ fp = p)
+    (hf : parseU32 (trimQ ff) = some f) (hs : parseSyls ((tokens sylSep line).drop 2) = .ok syls) :
+    parseLine d keep line = .ok (zeroFreq keep ⟨p, f, syls⟩) :=
+  parseLine_of_tokens h1 hp hf hs
+
+/-- the four parser unit tests of `tools/src/init_database.rs`, evaluated in the model:
+    `鑰匙 668 ㄧㄠˋ ㄔˊ # not official`, the same with five spaces, `鑰匙,668,ㄧㄠˋ ㄔˊ # not official`,
+    `"鑰匙",668,"ㄧㄠˋ ㄔˊ # not official"` -/
+theorem repo_unit_tests :
+    let cm : Text := [32, 35, 32, 110, 111, 116, 32, 111, 102, 102, 105, 99, 105, 97, 108]
+    let want : Except LineErr Rec := .ok ⟨[38000, 21273], 668, [188, 8194]⟩
+    parseLine 32 false ([38000, 21273, 32, 54, 54, 56, 32, 12583, 12576, 715, 32, 12564, 714] ++ cm) = want ∧
+    parseLine 32 false ([38000, 21273, 32, 32, 32, 32, 32, 54, 54, 56, 32, 12583, 12576, 715, 32, 12564, 714] ++ cm) = want ∧
+    parseLine 44 false ([38000, 21273, 44, 54, 54, 56, 44, 12583, 12576, 715, 32, 12564, 714] ++ cm) = want ∧
+    parseLine 44 false ([34, 38000, 21273, 34, 44, 54, 54, 56, 44, 34, 12583, 12576, 715, 32, 12564, 714] ++ cm ++ [34]) = want := by
+  decide
 
 /-- the one-character rule: a record that went through the compiler keeps its frequency only if
     the phrase is not a single character or `--keep-word-freq` was given -/
@@ -154,6 +179,48 @@ theorem dump_compile_roundtrip_except (db : Db) (f : Flags) (src : List Text) (i
   obtain ⟨h1, h2⟩ := dump_compile_roundtrip db f src ins hc' hwf
   exact ⟨entries db ins, by simp [compile, h1], h2⟩
 
+/-- the hypothesis of the round trip from facts about the source text: no line contains the first-tone
+    mark `ˉ` (F18) and every compiled phrase is non-empty without comma / whitespace -/
+theorem entries_wellFormed_of_source (db : Db) (f : Flags) (src : List Text) (ins : List Rec)
+    (hc : (compileRun f src).inserted = some ins) (hno : ∀ l ∈ src, ∀ c ∈ l, c ≠ 713)
+    (hph : ∀ r ∈ ins, r.phrase ≠ [] ∧ ∀ c ∈ r.phrase, sylSep c = false) :
+    ∀ r ∈ entries db ins, WellFormedRecord r := by
+  intro r hr
+  obtain ⟨pre, post, e, _⟩ := (dump_lists_last_records db ins r).mp hr
+  have hmem : r ∈ ins := by rw [e]; simp
+  have hv : ins = validRecs f src := by
+    have := inserted_are_valid_records f src
+    rw [hc] at this
+    split at this
+    · cases this
+    · exact Option.some.inj this
+  rw [hv] at hmem
+  obtain ⟨l, hl, hok⟩ := List.mem_filterMap.mp hmem
+  have hsrc : l ∈ src := by
+    unfold body at hl
+    split at hl
+    · exact List.mem_of_mem_drop hl
+    · exact hl
+  unfold okRec at hok
+  split at hok
+  · rename_i r' hp
+    cases hok
+    have := hph r (by rw [hv]; exact hmem)
+    exact parsed_wellFormed hp (hno l hsrc) this.1 this.2
+  · cases hok
+
+/-- **the round trip from the source**: `dump_compile_roundtrip` with its hypothesis discharged by
+    `entries_wellFormed_of_source`, and the dump taken through the file (`writeln!` / `BufRead::lines`) -/
+theorem dump_compile_roundtrip_source (db : Db) (f : Flags) (src : List Text) (ins : List Rec)
+    (hc : (compileRun f src).inserted = some ins) (hno : ∀ l ∈ src, ∀ c ∈ l, c ≠ 713)
+    (hph : ∀ r ∈ ins, r.phrase ≠ [] ∧ ∀ c ∈ r.phrase, sylSep c = false) :
+    compileRun f (readLines (writeLines (dump f.csv (entries db ins)))) =
+      { reported := [], inserted := some (entries db ins) } ∧
+    entries db (entries db ins) = entries db ins := by
+  have hwf := entries_wellFormed_of_source db f src ins hc hno hph
+  rw [dump_file_roundtrip f.csv _ hwf]
+  exact dump_compile_roundtrip db f src ins hc hwf
+
 /-- trie: the recompiled dictionary answers every lookup with the same phrases in the same order -/
 theorem recompiled_lookup_trie (ins : List Rec) (k : Key) :
     dictLookup .trie (entries .trie ins) k = dictLookup .trie ins k :=
@@ -170,6 +237,20 @@ theorem recompiled_lookup_sqlite_refuted : ¬ RecompiledLookupFull := by
   have := h .sqlite [⟨[28204], 0, [10268]⟩, ⟨[20874], 0, [10268]⟩, ⟨[31574], 0, [10268]⟩, ⟨[20596], 0, [10268]⟩] [10268]
   revert this
   decide
+
+/-- the exact class of F34: the SQLite back end and a key of exactly one syllable -/
+def KnownF34 (db : Db) (k : Key) : Prop := db = .sqlite ∧ k.length = 1
+
+/-- **recompiled_lookup_partial** — outside that class the recompiled dictionary answers every lookup with
+    the same phrases in the same order (trie: all keys; SQLite: every key that is not one syllable long) -/
+theorem recompiled_lookup_partial (db : Db) (ins : List Rec) (k : Key) (h : ¬ KnownF34 db k) :
+    dictLookup db (entries db ins) k = dictLookup db ins k := by
+  cases db with
+  | trie => exact recompiled_lookup_trie ins k
+  | sqlite => exact sql_roundtrip_lookup ins k (fun e => h ⟨rfl, e⟩)
+
+/-- … and inside it the *set* of phrases is still the same (`dump_lists_last_records` on both sides) -/
+example : KnownF34 .sqlite [10268] := ⟨rfl, rfl⟩
 
 /-! ## 4. malformed lines -/
 
